@@ -18,6 +18,7 @@ import (
 	"fmt"
 	"io"
 	"math/rand"
+	"os"
 	"strconv"
 	"strings"
 
@@ -56,6 +57,32 @@ type c12Doc struct {
 	LL [][]*string         `json:"ll"`
 	LS []c12Sub            `json:"ls"`
 	LI []interface{}       `json:"li"`
+	// audit A8: quoted members (wrapped_string.go works on a window of the document), numbers, raw messages and byte
+	// slices as elements and map values, []byte written as an array, a pointer to a raw message
+	QS string                       `json:"qs,string"`
+	QN gojson.Number                `json:"qn,string"`
+	QI int64                        `json:"qi,string"`
+	QP *string                      `json:"qp,string"`
+	NL []gojson.Number              `json:"nl"`
+	MN map[string]gojson.Number     `json:"mn"`
+	MR map[string]gojson.RawMessage `json:"mr"`
+	MB map[string][]byte            `json:"mb"`
+	BA []byte                       `json:"ba"`
+	PR *gojson.RawMessage           `json:"pr"`
+	MT map[c12TK]string             `json:"mt"`
+}
+
+// a map key that is a TextUnmarshaler: what UnmarshalText was handed is kept beside the key
+type c12TK struct{ K string }
+
+var c12TKKept [][]byte
+
+func (k *c12TK) UnmarshalText(b []byte) error {
+	k.K = string(b)
+	if len(c12TKKept) < 64 {
+		c12TKKept = append(c12TKKept, b)
+	}
+	return nil
 }
 
 type c12Sub struct {
@@ -137,6 +164,45 @@ func c12Snap(d *c12Doc) string {
 		b.WriteString("]")
 	}
 	fmt.Fprintf(&b, " LI=%#v", d.LI)
+	fmt.Fprintf(&b, " QS=%q QN=%q QI=%d NL=%q BA=%x", d.QS, string(d.QN), d.QI, d.NL, d.BA)
+	if d.QP != nil {
+		fmt.Fprintf(&b, " QP=%q", *d.QP)
+	}
+	if d.PR != nil {
+		fmt.Fprintf(&b, " PR=%q", string(*d.PR))
+	}
+	ks = ks[:0]
+	for k := range d.MN {
+		ks = append(ks, k)
+	}
+	sortStrings(ks)
+	for _, k := range ks {
+		fmt.Fprintf(&b, " MN[%q]=%q", k, string(d.MN[k]))
+	}
+	ks = ks[:0]
+	for k := range d.MR {
+		ks = append(ks, k)
+	}
+	sortStrings(ks)
+	for _, k := range ks {
+		fmt.Fprintf(&b, " MR[%q]=%q", k, string(d.MR[k]))
+	}
+	ks = ks[:0]
+	for k := range d.MB {
+		ks = append(ks, k)
+	}
+	sortStrings(ks)
+	for _, k := range ks {
+		fmt.Fprintf(&b, " MB[%q]=%x", k, d.MB[k])
+	}
+	ks = ks[:0]
+	for k := range d.MT {
+		ks = append(ks, k.K)
+	}
+	sortStrings(ks)
+	for _, k := range ks {
+		fmt.Fprintf(&b, " MT[%q]=%q", k, d.MT[c12TK{k}])
+	}
 	return b.String()
 }
 
@@ -148,12 +214,15 @@ func sortStrings(s []string) {
 	}
 }
 
+var c12Spell = map[string]int64{} // how often the generators wrote the spellings added by audit A8 (histogram document_spellings)
+
 func c12Str(r *rand.Rand) string {
 	n := []int{0, 1, 7, 8, 9, 30, 200, 3000}[r.Intn(8)]
+	invalid := r.Intn(25) == 0 // one string in 25 has bytes that are not UTF-8 (the two modes treat them differently: recorded under C09)
 	var b strings.Builder
 	b.WriteByte('"')
 	for i := 0; i < n; i++ {
-		switch r.Intn(14) {
+		switch r.Intn(22) {
 		case 0:
 			b.WriteString(`\n`)
 		case 1:
@@ -164,6 +233,27 @@ func c12Str(r *rand.Rand) string {
 			b.WriteString(`\"`)
 		case 4:
 			b.WriteString("é")
+		case 5:
+			// audit A8: the escapes that change the length of the window they are decoded in (six bytes become one to
+			// three, twelve become four), the other single-character escapes, and bytes that are not UTF-8
+			b.WriteString([]string{`\u00e9`, `\u0041`, `\u20AC`, `\u2028`, `\u0000`}[r.Intn(5)])
+			c12Spell["\\uXXXX escape"]++
+		case 6:
+			b.WriteString([]string{`\ud83d\ude00`, `\uD834\uDD1E`}[r.Intn(2)])
+			c12Spell["surrogate pair escape"]++
+		case 7:
+			b.WriteString([]string{`\ud800`, `\udc00x`, `\ud83d\u0041`}[r.Intn(3)]) // lone surrogates
+			c12Spell["lone surrogate escape"]++
+		case 8:
+			b.WriteString([]string{`\/`, `\b`, `\f`, `\r`, `\t`, `\\`}[r.Intn(6)])
+			c12Spell["other single-character escape"]++
+		case 9:
+			if invalid {
+				c12Spell["bytes that are not UTF-8"]++
+				b.WriteString([]string{"\xff", "\xe2\x82", "\xc0\xaf", "\xed\xa0\x80"}[r.Intn(4)])
+			} else {
+				b.WriteString("\u2028")
+			}
 		default:
 			b.WriteByte(byte('a' + r.Intn(26)))
 		}
@@ -176,7 +266,22 @@ func c12GenDoc(r *rand.Rand) string {
 	var parts []string
 	add := func(k, v string) {
 		if r.Intn(4) != 0 {
-			parts = append(parts, `"`+k+`": `+v)
+			// audit A8: the spelling of the key (an escape for its first character, another case) and the white space
+			// around the colon; now and then the member comes a second time
+			key := k
+			switch r.Intn(10) {
+			case 0:
+				key = fmt.Sprintf(`\u%04x`, k[0]) + k[1:]
+				c12Spell["member name with an escape"]++
+			case 1:
+				key = strings.ToUpper(k)
+				c12Spell["member name in upper case"]++
+			}
+			parts = append(parts, `"`+key+`"`+[]string{": ", ":", " : ", "\n:\t"}[r.Intn(4)]+v)
+			if r.Intn(12) == 0 {
+				parts = append(parts, `"`+k+`":`+v)
+				c12Spell["member given twice"]++
+			}
 		}
 	}
 	add("s", c12Str(r))
@@ -193,13 +298,13 @@ func c12GenDoc(r *rand.Rand) string {
 	add("l", `[`+c12Str(r)+`,`+c12Str(r)+`]`)
 	add("p", c12Str(r))
 	add("rl", `[ {"a":1} , "x" ,[2]]`)
-	subs := func() string {
+	subs := func(null string) string {
 		n := r.Intn(5)
 		var e []string
 		for i := 0; i < n; i++ {
 			switch r.Intn(5) {
 			case 0:
-				e = append(e, `null`)
+				e = append(e, null)
 			case 1:
 				e = append(e, `{"a":`+strconv.Itoa(r.Intn(100))+`}`)
 			case 2:
@@ -210,25 +315,40 @@ func c12GenDoc(r *rand.Rand) string {
 		}
 		return "[" + strings.Join(e, ",") + "]"
 	}
-	add("lp", subs())
-	add("ls", strings.ReplaceAll(subs(), "null", "{}"))
+	add("lp", subs(`null`))
+	add("ls", subs(`{}`)) // (replacing the text "null" afterwards also hit the characters after a \n inside a string: an invalid document)
 	{
 		n := r.Intn(4)
 		var e []string
 		for i := 0; i < n; i++ {
-			e = append(e, []string{`{"k":`+c12Str(r)+`}`, `{}`, `{"k":"v","j`+strconv.Itoa(r.Intn(5))+`":"w"}`, `null`}[r.Intn(4)])
+			e = append(e, []string{`{"k":` + c12Str(r) + `}`, `{}`, `{"k":"v","j` + strconv.Itoa(r.Intn(5)) + `":"w"}`, `null`}[r.Intn(4)])
 		}
 		add("lm", "["+strings.Join(e, ",")+"]")
 		e = e[:0]
 		n = r.Intn(4)
 		for i := 0; i < n; i++ {
-			e = append(e, []string{`[`+c12Str(r)+`]`, `[]`, `[null,`+c12Str(r)+`,"x"]`, `null`}[r.Intn(4)])
+			e = append(e, []string{`[` + c12Str(r) + `]`, `[]`, `[null,` + c12Str(r) + `,"x"]`, `null`}[r.Intn(4)])
 		}
 		add("ll", "["+strings.Join(e, ",")+"]")
 		add("li", []string{`[]`, `[1,"a",{"k":[2]}]`, `[[` + c12Str(r) + `],null]`}[r.Intn(3)])
 	}
+	{
+		inner := c12Str(r)
+		quoted, _ := stdjson.Marshal(inner) // a string whose content is a string literal
+		add("qs", string(quoted))
+		add("qn", []string{`"12.5"`, `"-0"`, `"1e3"`}[r.Intn(3)])
+		add("qi", []string{`"-7"`, `"9007199254740993"`, `"0"`}[r.Intn(3)])
+		add("qp", []string{string(quoted), `null`}[r.Intn(2)])
+		add("nl", []string{`[]`, `[1, -2.5e3 ,123456789012345678901234567890]`, `[0]`}[r.Intn(3)])
+		add("mn", `{"a":1.50,"b\n":-0}`)
+		add("mr", `{"x": [ 1 , `+c12Str(r)+` ], "y\t":{"k":null}}`)
+		add("mb", `{"p":"AQID","q":"","r":null}`)
+		add("ba", []string{`[1,2,255]`, `"AQID"`, `[]`}[r.Intn(3)])
+		add("pr", []string{` {"a" : ` + c12Str(r) + `}`, `null`, `[1 ,2]`}[r.Intn(3)])
+		add("mt", `{"k1":"v","k\n2":`+c12Str(r)+`}`)
+	}
 	r.Shuffle(len(parts), func(i, j int) { parts[i], parts[j] = parts[j], parts[i] })
-	return "{" + strings.Join(parts, ", ") + "}"
+	return "{" + strings.Join(parts, []string{", ", ",", " ,\n"}[r.Intn(3)]) + "}"
 }
 
 // churn makes the library recycle its pooled contexts and buffers with data of other sizes
@@ -299,11 +419,19 @@ func runC12(o *Out) {
 		}
 		if err != nil {
 			o.count("decode_errors", 1)
+			if os.Getenv("C12_DEBUG") != "" {
+				fmt.Fprintf(os.Stderr, "C12 decode error %s: %v\n   %q\n", api, err, doc)
+			}
 			continue
 		}
 		var sd c12Doc
 		if serr := stdjson.Unmarshal([]byte(doc), &sd); serr == nil && c12Snap(&sd) != c12Snap(&d) {
 			o.count("differs_from_encoding_json", 1)
+			if os.Getenv("C12_DEBUG") != "" {
+				a, b := c12Snap(&sd), c12Snap(&d)
+				k := firstDiff([]byte(a), []byte(b))
+				fmt.Fprintf(os.Stderr, "C12 differs %s: std %s\n   lib %s\n", api, around([]byte(a), k), around([]byte(b), k))
+			}
 		}
 		snap := c12Snap(&d)
 		for j := range backing {
@@ -407,8 +535,20 @@ func runC12(o *Out) {
 			}
 		}
 	}
+	// ---------- audit A8: callbacks on every path, the Decoder's other calls, failing documents, utilities ----------
+	c12Callbacks(o)
+	c12DecoderCalls(o)
+	c12FailingDocuments(o)
+	c12Utilities(o)
+	for k, v := range c12Spell {
+		if o.Hist["document_spellings"] == nil {
+			o.Hist["document_spellings"] = map[string]int64{}
+		}
+		o.Hist["document_spellings"][k] = v
+	}
 	// ---------- encode side ----------
 	c12MarshalerWindows(o)
+	c12EncodeKinds(o)
 	nm := 1500
 	if o.tier == "thorough" {
 		nm = 20000
@@ -501,6 +641,649 @@ func runC12(o *Out) {
 		}
 		if len(held) > 40 {
 			held = held[len(held)-25:]
+		}
+	}
+}
+
+// ======================================================================================================
+// Audit A8: dimensions the strata above did not reach.
+//   - Unmarshaler / TextUnmarshaler members reached through interface members that hold a pointer (interface.go
+//     makes its own copies there), the context-taking variant, elements and map values, text-unmarshaler map keys;
+//     callbacks that keep what they were handed, that overwrite it, and that write into the capacity behind it
+//   - the Decoder's other calls: UseNumber, Token, Buffered, More, DecodeContext, DecodeWithOption, mixed on one stream
+//   - documents that fail to decode (the input must be left alone on the error paths, too)
+//   - the utility functions on a caller's slice with spare capacity
+// ======================================================================================================
+
+// what the hostile callbacks do, set by the stratum before each decode
+var c12Hostile struct {
+	overwrite bool // overwrite the bytes handed over (after taking a copy)
+	scribble  bool // write into the capacity behind them
+}
+
+func c12Abuse(b []byte, scribbleAllowed bool) {
+	if c12Hostile.scribble && scribbleAllowed {
+		full := b[:cap(b)]
+		for i := len(b); i < len(full); i++ {
+			full[i] = '#'
+		}
+	}
+	if c12Hostile.overwrite {
+		for i := range b {
+			b[i] = '#'
+		}
+	}
+}
+
+type c12H struct { // UnmarshalJSON: keeps the slice it was handed
+	Seen string
+	Kept []byte
+}
+
+func (u *c12H) UnmarshalJSON(b []byte) error {
+	u.Seen = string(b)
+	if !c12Hostile.overwrite {
+		u.Kept = b
+	}
+	c12Abuse(b, true)
+	return nil
+}
+
+type c12HC struct { // the variant that takes a context
+	Seen string
+	Kept []byte
+}
+
+func (u *c12HC) UnmarshalJSON(ctx context.Context, b []byte) error {
+	u.Seen = string(b)
+	if !c12Hostile.overwrite {
+		u.Kept = b
+	}
+	c12Abuse(b, true)
+	return nil
+}
+
+type c12HT struct {
+	Seen string
+	Kept []byte
+}
+
+// UnmarshalText: in buffer mode the text is a window of the library's private copy of the document (as it is a window of
+// the caller's input with encoding/json), so the capacity behind it is not the callback's to write to
+func (u *c12HT) UnmarshalText(b []byte) error {
+	u.Seen = string(b)
+	if !c12Hostile.overwrite {
+		u.Kept = b
+	}
+	c12Abuse(b, false)
+	return nil
+}
+
+type c12HK struct{ K string } // a map key
+
+var c12HKKept [][]byte
+
+func (k *c12HK) UnmarshalText(b []byte) error {
+	k.K = string(b)
+	if !c12Hostile.overwrite && len(c12HKKept) < 256 {
+		c12HKKept = append(c12HKKept, b)
+	}
+	c12Abuse(b, false)
+	return nil
+}
+
+type c12CtxUnmarshaler interface {
+	UnmarshalJSON(context.Context, []byte) error
+}
+type c12TextUnmarshaler interface{ UnmarshalText([]byte) error }
+
+type c12CB struct {
+	A  string              `json:"a"`
+	U  c12H                `json:"u"`
+	UP *c12H               `json:"up"`
+	UC c12HC               `json:"uc"`
+	T  c12HT               `json:"t"`
+	TP *c12HT              `json:"tp"`
+	IU interface{}         `json:"iu"` // holds a *c12H before the decode
+	IC interface{}         `json:"ic"` // holds a *c12HC
+	IT interface{}         `json:"it"` // holds a *c12HT
+	NU stdjson.Unmarshaler `json:"nu"` // an interface type with methods, holds a *c12H
+	NC c12CtxUnmarshaler   `json:"nc"` // holds a *c12HC
+	NT c12TextUnmarshaler  `json:"nt"` // holds a *c12HT
+	LU []c12H              `json:"lu"`
+	LT []*c12HT            `json:"lt"`
+	MU map[string]*c12H    `json:"mu"`
+	MK map[c12HK]string    `json:"mk"`
+	B  string              `json:"b"`
+	Z  []string            `json:"z"`
+}
+
+func c12NewCB() *c12CB {
+	return &c12CB{IU: &c12H{}, IC: &c12HC{}, IT: &c12HT{}, NU: &c12H{}, NC: &c12HC{}, NT: &c12HT{}}
+}
+
+// c12CBSnap: everything the callbacks saw and the members around them; kept=true adds the slices the callbacks kept
+func c12CBSnap(d *c12CB, kept bool) string {
+	var b strings.Builder
+	h := func(name string, u *c12H) {
+		if u == nil {
+			fmt.Fprintf(&b, " %s=nil", name)
+			return
+		}
+		fmt.Fprintf(&b, " %s=%q", name, u.Seen)
+		if kept {
+			fmt.Fprintf(&b, "/%q", string(u.Kept))
+		}
+	}
+	hc := func(name string, u *c12HC) {
+		if u == nil {
+			fmt.Fprintf(&b, " %s=nil", name)
+			return
+		}
+		fmt.Fprintf(&b, " %s=%q", name, u.Seen)
+		if kept {
+			fmt.Fprintf(&b, "/%q", string(u.Kept))
+		}
+	}
+	ht := func(name string, u *c12HT) {
+		if u == nil {
+			fmt.Fprintf(&b, " %s=nil", name)
+			return
+		}
+		fmt.Fprintf(&b, " %s=%q", name, u.Seen)
+		if kept {
+			fmt.Fprintf(&b, "/%q", string(u.Kept))
+		}
+	}
+	fmt.Fprintf(&b, "A=%q B=%q Z=%q", d.A, d.B, d.Z)
+	h("U", &d.U)
+	h("UP", d.UP)
+	hc("UC", &d.UC)
+	ht("T", &d.T)
+	ht("TP", d.TP)
+	if x, ok := d.IU.(*c12H); ok {
+		h("IU", x)
+	} else {
+		fmt.Fprintf(&b, " IU=%#v", d.IU)
+	}
+	if x, ok := d.IC.(*c12HC); ok {
+		hc("IC", x)
+	} else {
+		fmt.Fprintf(&b, " IC=%#v", d.IC)
+	}
+	if x, ok := d.IT.(*c12HT); ok {
+		ht("IT", x)
+	} else {
+		fmt.Fprintf(&b, " IT=%#v", d.IT)
+	}
+	if x, ok := d.NU.(*c12H); ok {
+		h("NU", x)
+	} else {
+		fmt.Fprintf(&b, " NU=%#v", d.NU)
+	}
+	if x, ok := d.NC.(*c12HC); ok {
+		hc("NC", x)
+	} else {
+		fmt.Fprintf(&b, " NC=%#v", d.NC)
+	}
+	if x, ok := d.NT.(*c12HT); ok {
+		ht("NT", x)
+	} else {
+		fmt.Fprintf(&b, " NT=%#v", d.NT)
+	}
+	for i := range d.LU {
+		h("LU", &d.LU[i])
+	}
+	for _, x := range d.LT {
+		ht("LT", x)
+	}
+	var ks []string
+	for k := range d.MU {
+		ks = append(ks, k)
+	}
+	sortStrings(ks)
+	for _, k := range ks {
+		h("MU["+k+"]", d.MU[k])
+	}
+	ks = ks[:0]
+	for k := range d.MK {
+		ks = append(ks, k.K)
+	}
+	sortStrings(ks)
+	for _, k := range ks {
+		fmt.Fprintf(&b, " MK[%q]=%q", k, d.MK[c12HK{k}])
+	}
+	return b.String()
+}
+
+func c12CBDoc(r *rand.Rand) string {
+	val := func() string {
+		return []string{`{"k": ` + c12Str(r) + ` , "l":[1, 2]}`, c12Str(r), ` [ ` + c12Str(r) + `,null ]`, `-12.50e1`, `true`, `{}`}[r.Intn(6)]
+	}
+	var parts []string
+	add := func(k, v string) {
+		if r.Intn(5) != 0 {
+			sep := []string{":", ": ", " :\n"}[r.Intn(3)]
+			if (k[0] == 'i' || k[0] == 'n') && r.Intn(8) != 0 {
+				// seen by this audit (a matter of C09, not of this property): in stream mode the members reached through an
+				// interface do not skip the white space before their value (UnmarshalJSON is handed it, a text value is refused)
+				sep = ":"
+			}
+			parts = append(parts, `"`+k+`"`+sep+v)
+		}
+	}
+	add("a", c12Str(r))
+	add("u", val())
+	add("up", []string{val(), `null`}[r.Intn(2)])
+	add("uc", val())
+	add("t", c12Str(r))
+	add("tp", []string{c12Str(r), `null`}[r.Intn(2)])
+	add("iu", val())
+	add("ic", val())
+	add("it", c12Str(r))
+	add("nu", val())
+	add("nc", val())
+	add("nt", c12Str(r))
+	add("lu", `[`+val()+`, `+val()+`]`)
+	add("lt", `[`+c12Str(r)+`,null,`+c12Str(r)+`]`)
+	add("mu", `{"x":`+val()+`,"y\n":`+val()+`,"z":null}`)
+	add("mk", `{"k1":"v1","k\t2":`+c12Str(r)+`,`+c12Str(r)+`:"v3"}`)
+	r.Shuffle(len(parts), func(i, j int) { parts[i], parts[j] = parts[j], parts[i] })
+	// the members behind: they are read after every callback has run
+	parts = append(parts, `"b":`+c12Str(r), `"z":[`+c12Str(r)+`,"end"]`)
+	return "{" + strings.Join(parts, []string{",", ", ", "\n,"}[r.Intn(3)]) + "}"
+}
+
+func c12DecodeCB(api string, in []byte, piece int, d *c12CB) error {
+	switch api {
+	case "Unmarshal":
+		return gojson.Unmarshal(in, d)
+	case "UnmarshalContext":
+		return gojson.UnmarshalContext(context.Background(), in, d)
+	case "UnmarshalNoEscape":
+		return gojson.UnmarshalNoEscape(in, d)
+	case "UnmarshalWithOption":
+		return gojson.UnmarshalWithOption(in, d, gojson.DecodeFieldPriorityFirstWin())
+	case "Decoder":
+		return gojson.NewDecoder(&pieceReader{b: in, size: piece, failAt: -1}).Decode(d)
+	case "DecodeContext":
+		return gojson.NewDecoder(&pieceReader{b: in, size: piece, failAt: -1}).DecodeContext(context.Background(), d)
+	default:
+		return gojson.NewDecoder(&pieceReader{b: in, size: piece, failAt: -1}).DecodeWithOption(d, gojson.DecodeFieldPriorityFirstWin())
+	}
+}
+
+func c12Callbacks(o *Out) {
+	r := o.rng
+	n := 500
+	if o.tier == "thorough" {
+		n = 6000
+	}
+	apis := []string{"Unmarshal", "UnmarshalContext", "UnmarshalNoEscape", "UnmarshalWithOption", "Decoder", "DecodeContext", "DecodeWithOption"}
+	for i := 0; i < n; i++ {
+		doc := c12CBDoc(r)
+		api := apis[r.Intn(len(apis))]
+		piece := []int{1, 7, 64, 511, 512, 1 << 20}[r.Intn(6)]
+		spare := []int{0, 1, 64}[r.Intn(3)]
+		backing := make([]byte, len(doc)+spare)
+		copy(backing, doc)
+		for j := len(doc); j < len(backing); j++ {
+			backing[j] = 0xA5
+		}
+		in := backing[:len(doc)]
+		det := map[string]string{"api": api, "piece": strconv.Itoa(piece), "doc": clip(doc), "doc_hex": hx([]byte(doc))}
+		o.current(map[string]string{"property": "C12", "what": "unmarshaler callbacks", "api": api, "doc": clip(doc)})
+		o.count("callback_decodes", 1)
+		o.hist("callback_api", api)
+		// 1. well-behaved callbacks that keep what they were handed
+		c12Hostile.overwrite, c12Hostile.scribble = false, false
+		c12HKKept = c12HKKept[:0]
+		d := c12NewCB()
+		err := c12DecodeCB(api, in, piece, d)
+		if string(backing[:len(doc)]) != doc {
+			o.violation("C12", "decoding modified the caller's input bytes", det)
+		}
+		for j := len(doc); j < len(backing); j++ {
+			if backing[j] != 0xA5 {
+				o.violation("C12", "decoding wrote into the spare capacity behind the caller's input", det)
+				break
+			}
+		}
+		if err != nil {
+			o.count("callback_decode_errors", 1)
+			if os.Getenv("C12_DEBUG") != "" {
+				fmt.Fprintf(os.Stderr, "C12 callback decode error %s piece=%d: %v\n   %q\n", api, piece, err, doc)
+			}
+			continue
+		}
+		keys := make([]string, len(c12HKKept))
+		for j, k := range c12HKKept {
+			keys[j] = string(k)
+		}
+		keyKept := append([][]byte(nil), c12HKKept...)
+		snap := c12CBSnap(d, true)
+		base := c12CBSnap(d, false)
+		if sd := c12NewCB(); stdjson.Unmarshal([]byte(doc), sd) == nil {
+			// encoding/json does not know the context-taking variant: those members are left out of the comparison
+			sd.UC, sd.IC, sd.NC = d.UC, d.IC, d.NC
+			if c12CBSnap(sd, false) != base {
+				o.count("callbacks_differ_from_encoding_json", 1)
+			}
+		}
+		for j := range backing {
+			backing[j] = 'X'
+		}
+		c12Churn(r)
+		// further decodes through the same entry point (the stream window, the pooled contexts)
+		c12DecodeCB(api, []byte(c12CBDoc(r)), piece, c12NewCB())
+		changed := c12CBSnap(d, true) != snap
+		for j, k := range keyKept {
+			if string(k) != keys[j] {
+				changed = true
+			}
+		}
+		if changed {
+			det["before"], det["after"] = clip(snap), clip(c12CBSnap(d, true))
+			o.violation("C12", "bytes handed to an unmarshal callback changed after the call (input overwritten, later library calls)", det)
+			continue
+		}
+		// 2. callbacks that overwrite what they were handed and write into the capacity behind it: the rest of the
+		// document must decode as before
+		for mode := 0; mode < 2; mode++ {
+			c12Hostile.overwrite, c12Hostile.scribble = mode == 1, true
+			d2 := c12NewCB()
+			in2 := append(make([]byte, 0, len(doc)+spare), doc...)
+			err := c12DecodeCB(api, in2, piece, d2)
+			c12Hostile.overwrite, c12Hostile.scribble = false, false
+			o.count("hostile_callback_decodes", 1)
+			if string(in2) != doc {
+				o.violation("C12", "a callback that overwrites the bytes it was handed changed the caller's input", det)
+			}
+			if err != nil || c12CBSnap(d2, false) != base {
+				det["mode"] = []string{"writes into the capacity behind its argument", "overwrites its argument and writes into the capacity behind it"}[mode]
+				det["well_behaved"], det["hostile"] = clip(base), clip(c12CBSnap(d2, false))
+				if err != nil {
+					det["error"] = err.Error()
+				}
+				o.violation("C12", "what a callback does to the bytes it was handed changes how the rest of the document is decoded (the callback was given a window of a live buffer)", det)
+				break
+			}
+		}
+	}
+}
+
+// ---- the Decoder's other calls ----
+
+func c12DecoderCalls(o *Out) {
+	r := o.rng
+	n := 60
+	if o.tier == "thorough" {
+		n = 600
+	}
+	type held struct {
+		what string
+		snap func() string
+		was  string
+	}
+	for i := 0; i < n; i++ {
+		k := 3 + r.Intn(8)
+		var docs []string
+		var stream bytes.Buffer
+		for j := 0; j < k; j++ {
+			d := c12GenDoc(r)
+			if r.Intn(3) == 0 {
+				d = []string{c12Str(r), `[` + c12Str(r) + `, 12.5, {"n": -0.0e1, "s": ` + c12Str(r) + `}]`, `123456789012345678901234567890`, `{"a":{"b":[` + c12Str(r) + `]}}`}[r.Intn(4)]
+			}
+			docs = append(docs, d)
+			stream.WriteString(d)
+			stream.WriteString([]string{"\n", " ", "\n\n", "\t"}[r.Intn(4)])
+		}
+		piece := []int{1, 7, 64, 511, 512, 4096, 1 << 20}[r.Intn(7)]
+		src := append([]byte(nil), stream.Bytes()...)
+		orig := string(src)
+		dec := gojson.NewDecoder(&pieceReader{b: src, size: piece, failAt: -1})
+		useNumber := r.Intn(2) == 0
+		if useNumber {
+			dec.UseNumber()
+		}
+		var hs []held
+		check := func(after string) {
+			for j := range hs {
+				if now := hs[j].snap(); now != hs[j].was {
+					o.violation("C12", "a value obtained earlier from a Decoder changed during a later call on the same Decoder", map[string]string{
+						"piece": strconv.Itoa(piece), "use_number": strconv.FormatBool(useNumber), "obtained_by": hs[j].what, "changed_after": after,
+						"before": clip(hs[j].was), "after": clip(now), "stream_hex": hx([]byte(orig))})
+					hs[j].was = now
+				}
+			}
+		}
+		keep := func(what string, snap func() string) { hs = append(hs, held{what, snap, snap()}) }
+		o.current(map[string]string{"property": "C12", "what": "Decoder calls", "piece": strconv.Itoa(piece), "stream": clip(orig)})
+		for j := 0; j < k; j++ {
+			call := []string{"Decode struct", "Decode interface", "DecodeContext", "DecodeWithOption", "Token walk", "Decode RawMessage"}[r.Intn(6)]
+			if docs[j][0] != '{' && (call == "Decode struct" || call == "DecodeContext") {
+				call = "Decode interface"
+			}
+			o.hist("decoder_call", call)
+			var err error
+			switch call {
+			case "Decode struct":
+				d := &c12Doc{}
+				if err = dec.Decode(d); err == nil {
+					keep(call, func() string { return c12Snap(d) })
+				}
+			case "Decode interface":
+				var v interface{}
+				if err = dec.Decode(&v); err == nil {
+					keep(call, func() string { return fmt.Sprintf("%#v", v) })
+				}
+			case "DecodeContext":
+				d := &c12Doc{}
+				if err = dec.DecodeContext(context.Background(), d); err == nil {
+					keep(call, func() string { return c12Snap(d) })
+				}
+			case "DecodeWithOption":
+				var v map[string]interface{}
+				if docs[j][0] != '{' {
+					var w interface{}
+					if err = dec.DecodeWithOption(&w, gojson.DecodeFieldPriorityFirstWin()); err == nil {
+						keep(call, func() string { return fmt.Sprintf("%#v", w) })
+					}
+				} else if err = dec.DecodeWithOption(&v, gojson.DecodeFieldPriorityFirstWin()); err == nil {
+					keep(call, func() string { return fmt.Sprintf("%#v", v) })
+				}
+			case "Decode RawMessage":
+				var m gojson.RawMessage
+				if err = dec.Decode(&m); err == nil {
+					keep(call, func() string { return string(m) })
+				}
+			default:
+				// the tokens of one document: every one is kept, and looked at again after every later token
+				depth := 0
+				for {
+					var tok gojson.Token
+					tok, err = dec.Token()
+					if err != nil {
+						break
+					}
+					o.count("decoder_tokens", 1)
+					t := tok
+					keep("Token", func() string { return fmt.Sprintf("%T %v", t, t) })
+					if dl, ok := tok.(gojson.Delim); ok {
+						if dl == '{' || dl == '[' {
+							depth++
+						} else {
+							depth--
+						}
+					}
+					if len(hs)%16 == 0 {
+						check("Token")
+					}
+					if depth == 0 {
+						break
+					}
+				}
+			}
+			if err != nil {
+				if err != io.EOF {
+					o.count("decoder_call_errors", 1)
+				}
+				break
+			}
+			o.count("decoder_calls", 1)
+			if r.Intn(3) == 0 {
+				dec.More()
+			}
+			if r.Intn(4) == 0 {
+				rest, _ := io.ReadAll(dec.Buffered())
+				keep("Buffered", func() string { return string(rest) })
+			}
+			check(call)
+		}
+		if string(src) != orig {
+			o.violation("C12", "the Decoder modified the bytes its reader reads from", map[string]string{"stream_hex": hx([]byte(orig))})
+		}
+		c12Churn(r)
+		check("later library calls")
+	}
+}
+
+// ---- documents that fail to decode ----
+
+func c12FailingDocuments(o *Out) {
+	r := o.rng
+	n := 300
+	if o.tier == "thorough" {
+		n = 4000
+	}
+	apis := []string{"Unmarshal", "UnmarshalContext", "UnmarshalNoEscape", "UnmarshalWithOption", "Decoder"}
+	for i := 0; i < n; i++ {
+		doc := []byte(c12GenDoc(r))
+		how := r.Intn(4)
+		switch how {
+		case 0:
+			doc = doc[:r.Intn(len(doc))]
+		case 1:
+			doc[r.Intn(len(doc))] = []byte("\"\\{}[],:x\x00\xff\n")[r.Intn(12)]
+		case 2:
+			at := r.Intn(len(doc))
+			doc = append(doc[:at:at], append([]byte([]string{`\`, `"`, `\u12`, `]`, "\x00", `\ud800\u`}[r.Intn(6)]), doc[at:]...)...)
+		default:
+			doc = append(doc, []string{"x", "}", " 1", "\x00"}[r.Intn(4)]...)
+		}
+		spare := []int{0, 1, 64}[r.Intn(3)]
+		backing := make([]byte, len(doc)+spare)
+		copy(backing, doc)
+		for j := len(doc); j < len(backing); j++ {
+			backing[j] = 0xA5
+		}
+		in := backing[:len(doc)]
+		api := apis[r.Intn(len(apis))]
+		o.current(map[string]string{"property": "C12", "what": "failing document", "api": api, "doc": clip(string(doc))})
+		var d c12Doc
+		var err error
+		switch api {
+		case "Unmarshal":
+			err = gojson.Unmarshal(in, &d)
+		case "UnmarshalContext":
+			err = gojson.UnmarshalContext(context.Background(), in, &d)
+		case "UnmarshalNoEscape":
+			err = gojson.UnmarshalNoEscape(in, &d)
+		case "UnmarshalWithOption":
+			err = gojson.UnmarshalWithOption(in, &d, gojson.DecodeFieldPriorityFirstWin())
+		default:
+			err = gojson.NewDecoder(&pieceReader{b: in, size: []int{1, 64, 512, 1 << 20}[r.Intn(4)], failAt: -1}).Decode(&d)
+		}
+		o.count("failing_document_decodes", 1)
+		if err != nil {
+			o.count("failing_document_errors", 1)
+		}
+		det := map[string]string{"api": api, "doc": clip(string(doc)), "doc_hex": hx(doc), "spare": strconv.Itoa(spare), "error": fmt.Sprint(err)}
+		if !bytes.Equal(backing[:len(doc)], doc) {
+			o.violation("C12", "decoding modified the caller's input bytes", det)
+		}
+		for j := len(doc); j < len(backing); j++ {
+			if backing[j] != 0xA5 {
+				o.violation("C12", "decoding wrote into the spare capacity behind the caller's input", det)
+				break
+			}
+		}
+		// what was stored before the error belongs to the caller like any other result
+		snap := c12Snap(&d)
+		for j := range backing {
+			backing[j] = 'X'
+		}
+		c12Churn(r)
+		if c12Snap(&d) != snap {
+			det["before"], det["after"] = clip(snap), clip(c12Snap(&d))
+			o.violation("C12", "what a failed decode had stored changed when the input was overwritten or during later library calls", det)
+		}
+	}
+}
+
+// ---- the utility functions on a caller's slice ----
+
+func c12Utilities(o *Out) {
+	r := o.rng
+	n := 150
+	if o.tier == "thorough" {
+		n = 2000
+	}
+	var outs []c12Held
+	for i := 0; i < n; i++ {
+		doc := c12GenDoc(r)
+		if r.Intn(4) == 0 {
+			doc = doc[:r.Intn(len(doc))]
+		}
+		spare := []int{0, 1, 64, 5000}[r.Intn(4)]
+		backing := make([]byte, len(doc)+spare)
+		copy(backing, doc)
+		for j := len(doc); j < len(backing); j++ {
+			backing[j] = 0xA5
+		}
+		in := backing[:len(doc)]
+		fn := []string{"Valid", "Compact", "Indent", "HTMLEscape"}[r.Intn(4)]
+		o.current(map[string]string{"property": "C12", "what": "utility", "function": fn, "doc": clip(doc)})
+		o.hist("utility", fn)
+		var dst bytes.Buffer
+		dst.WriteString("PRE")
+		switch fn {
+		case "Valid":
+			gojson.Valid(in)
+		case "Compact":
+			gojson.Compact(&dst, in)
+		case "Indent":
+			gojson.Indent(&dst, in, ">", "\t")
+		default:
+			gojson.HTMLEscape(&dst, in)
+		}
+		o.count("utility_calls", 1)
+		det := map[string]string{"function": fn, "doc": clip(doc), "doc_hex": hx([]byte(doc)), "spare": strconv.Itoa(spare)}
+		if string(backing[:len(doc)]) != doc {
+			o.violation("C12", "a utility function modified the caller's input bytes", det)
+		}
+		for j := len(doc); j < len(backing); j++ {
+			if backing[j] != 0xA5 {
+				o.violation("C12", "a utility function wrote into the spare capacity behind the caller's input", det)
+				break
+			}
+		}
+		outs = append(outs, c12Held{dst.Bytes(), append([]byte(nil), dst.Bytes()...), fn})
+		for j := range backing {
+			backing[j] = 'X'
+		}
+		if r.Intn(3) == 0 {
+			c12Churn(r)
+		}
+		for j := range outs {
+			if !bytes.Equal(outs[j].got, outs[j].copy) {
+				det["result_of"] = outs[j].desc
+				o.violation("C12", "what a utility function wrote to the caller's buffer changed afterwards (input overwritten, later library calls)", det)
+				outs[j].copy = append(outs[j].copy[:0], outs[j].got...)
+			}
+		}
+		if len(outs) > 20 {
+			outs = outs[len(outs)-10:]
 		}
 	}
 }
